@@ -165,3 +165,23 @@ func H_C06_annot_header() {
 	vAfter(r)
 	vcover("end")
 }
+
+// H_C06_declared_len: a top-level value of scalar type code t (int, decimal, timestamp, symbol, string, clob, blob) whose
+// length field is a VarUInt with 63 symbolic value bits (the solver chooses it), followed by k <= 2 payload bytes and the end
+// of input. The reader must not crash or allocate memory in proportion to the DECLARED length of a value the input
+// does not contain: every make() whose size the input can push to 256 MiB or more is the engine's alloc event.
+func H_C06_declared_len() {
+	t := byte(vparam("t", 2))
+	v := vnondetBytes(9)
+	for j := range v {
+		v[j] &= 0x7F
+	}
+	v[8] |= 0x80
+	k := vnondetInt(0, 2)
+	doc := vCat(vBVM, []byte{t<<4 | 0xE}, v, vnondetBytes(k))
+	r := NewReaderBytes(doc)
+	var evs []vEv
+	vTraverse(r, 0, 2, true, &evs)
+	vAfter(r)
+	vcover("end")
+}
